@@ -33,11 +33,15 @@ def make_log(dist, B, nblocks, rng):
             # the clock was reset for a while: the middle 80 % of the file carries timestamps twenty years back
             frac_ = size / float(target)
             ts = gen.fmt_ts((gen.BASE if (frac_ < 0.1 or frac_ >= 0.9) else gen.BASE - 20 * 365 * 86400) + k, 0, None, 0).encode()
+        if dist == "epoch":
+            # Unix-epoch timestamps ("1704067201 ..."): no year field, yet every value names its year -- nothing has to be
+            # held back for a year walk
+            ts = b"%d" % (gen.BASE + k)
         if dist == "aligned":          # every line exactly one block
             ln = B
         elif dist == "half":           # two lines per block: every second newline lands on a block end
             ln = B // 2
-        elif dist in ("short", "reset"):
+        elif dist in ("short", "reset", "epoch"):
             ln = 20 + 8 + rng.randrange(0, 10)
         elif dist == "mixed":
             ln = rng.choice([B // 2, B, B + 1, 2 * B, 30, 45, 3 * B - 1])
@@ -98,7 +102,7 @@ def run(pid, tier, seed):
             trans += r.generated
 
         decades = [10, 100, 1000] + ([10000] if tier == "thorough" else [4000])
-        dists = ["aligned", "half", "short", "mixed", "multi", "reset"]
+        dists = ["aligned", "half", "short", "mixed", "multi", "reset", "epoch"]
         conts = ["plain", "gz", "bz2", "lz4"] if tier == "thorough" else ["plain", "gz", "lz4"]
         Bs = [64, 256] if tier == "quick" else [64, 100, 256, 1024]
         jobs = []
